@@ -15,12 +15,15 @@
         for a `Representable` / `RepresentableFragment` tree the token list satisfies `LexOK`
     C01_rendering_decodes
         attribute / declaration values and text tokens decode back to the strings of the tree
+    C01_value_spelling
+        the same strings as well-spelled `Piece` lists (bridge to the builder theorems)
   The names the tags and attributes are written with resolve, nearest declaration first, to the
   names' namespaces: C10_sound_tree, C10_sound_tree_endtag, C10_sound_tree_attribute (Props/C10).
 -/
 import XotModel.Lemmas.Entity
 import XotModel.Lemmas.SerTokensLexTop
 import XotModel.Lemmas.SerTokensDecode
+import XotModel.Lemmas.SerTokensPieces
 
 namespace XotModel.Props
 open XotModel XotModel.Gen
@@ -139,6 +142,17 @@ theorem C01_rendering_lexok_fragment (env : Env) (t : Tree) (hr : RepresentableF
 theorem C01_rendering_decodes (env : Env) (t : Tree) (ts : List Token)
     (h : serTokensTop env t = .ok ts) : ∀ k ∈ ts, k.Decodes :=
   serTokensTop_decodes env t ts h
+
+/-- The escaped strings as spellings-as-data (`Piece`, the vocabulary of the builder theorems
+    C02_spelled*): one piece per character — literal, predefined entity or upper-case hexadecimal
+    reference — rendering to what the serialiser writes, denoting the value, well spelled. -/
+theorem C01_value_spelling (v : Str) :
+    (renderPieces (attrPieces v) = serializeAttribute v ∧ valueOf true (attrPieces v) = v ∧
+      WellSpelled (attrPieces v)) ∧
+    (renderPieces (textPieces v) = serializeText false v ∧ valueOf false (textPieces v) = v ∧
+      WellSpelled (textPieces v)) :=
+  ⟨⟨renderPieces_attrPieces v, valueOf_attrPieces v, wellSpelled_attrPieces v⟩,
+   ⟨renderPieces_textPieces v, valueOf_textPieces v, wellSpelled_textPieces v⟩⟩
 
 /-! Non-vacuity: a document with a default namespace, a prefixed child, an attribute value
     `<&"` TAB, a text `]]>` CR, a comment and two PIs. -/
